@@ -22,8 +22,8 @@ CONFIG = dict(
              "A differential run of the real functions against the model and the by-value specification ties the model to the code.",
         note="The model is hand written (tie = correspondence only): grammar-generated, boundary and mutated strings with |exponent| <= 30 "
              "(at most 5 exponent digits); the unbounded-exponent hang F16 is filed under C28 and not generated; running time is not "
-             "modelled. Known finding F20: representable amounts in unusual spellings (10e-7, 0e-7, .0) are rejected. "
-             "F19 (sign after the point accepted: '.+5' = 0.05) repaired.",
+             "modelled. Known finding F23: representable amounts in unusual spellings (10e-7, 0e-7, .0) are rejected. "
+             "F24 (sign after the point accepted: '.+5' = 0.05) repaired.",
         technique="Lean 4 proof over a hand model + differential correspondence",
     ),
     translators=[],
